@@ -101,6 +101,7 @@ def shapes(spec):
         ("block-2d", {"$w2d": [n, 0, min(2, R), 0, min(2, C)]}, min(2, R) * min(2, C), (min(2, R), min(2, C))),
         ("nested-list-2d", {"$a": [[ids[r][c] for c in range(min(2, C))] for r in range(min(2, R))]}, min(2, R) * min(2, C), (min(2, R), min(2, C))),
         ("fortran-2d", {"$af": [[ids[r][c] for c in range(C)] for r in range(R)]}, R * C, (R, C)),
+        ("own-wells", {"$wells": n}, R * C, (R, C)),  # lw.add(lw.wells, ...): the labware's own array object
     ]
     if g.is_trough and R > 1:
         out.append(("alias-pair", [ids[0][0], ids[1][0]], 2, None))
@@ -138,7 +139,7 @@ def all_events(config, full, thin=False):
                     is_core = (si + vi + oi) % 7 == 0 and lab in ("column", "repeat", "block-2d", "alias-pair", "scalar", "reversed")
                     if not full and not is_core:
                         continue
-                    if full and thin and not is_core and (si + 2 * vi + oi) % 3:
+                    if full and thin and not is_core and (si + 2 * vi + oi) % 3 and lab != "own-wells":
                         continue
                     if op in ("add", "remove"):
                         ev.append([op, n, wells, vols, {}])
